@@ -25,7 +25,10 @@
               `finish w`    — the processor returned; back to `wait_for(backlog.get())`
               `fail w`      — the processor raised: `finally: del streams[key]` (the backlog is dropped
                               with it), the task ends with the exception
-              `retry w`     — `TimeoutError`, but `backlog.empty()` is false: `continue`
+              `timeoutTake w e` — `TimeoutError`, but `backlog.empty()` is false:
+                              `raw_event = backlog.get_nowait()` and straight on into the processor, all in
+                              the SAME segment (since /repo d07cc0b; before, the worker `continue`d into a
+                              new `wait_for`, which with `idle_timeout <= 0` never looked at the queue)
               `retire w`    — `TimeoutError` and `backlog.empty()`: `break` + `finally: del streams[key]`
                               in ONE segment (no await in between — the crux of C01)
               `eosExit w`   — got `EOS`: `break`, `del streams[key]`
@@ -140,7 +143,7 @@ inductive Label where
   | take (w : Wid) (e : Ev)
   | finish (w : Wid)
   | fail (w : Wid)
-  | retry (w : Wid)
+  | timeoutTake (w : Wid) (e : Ev)
   | retire (w : Wid)
   | retireCheck (w : Wid)
   | retireErase (w : Wid)
@@ -218,10 +221,15 @@ def stepCore (buggy : Bool) (s : State) : Label → Option State
                       failedK := upd s.failedK w.key true }
       | _ => none
     else none
-  | .retry w =>
+  | .timeoutTake w e =>
     if s.closed = false ∧ s.pc w = some .waiting then
       match s.streams w.key with
-      | some (_ :: _) => some s
+      | some (.ev e' :: rest) =>
+        if e' = e then
+          some { s with streams := upd s.streams w.key (some rest),
+                        pc := upd s.pc w (some (.busy e)),
+                        started := upd s.started w.key (s.started w.key ++ [e]) }
+        else none
       | _ => none
     else none
   | .retire w =>
